@@ -41,9 +41,10 @@ PROPS = {
                  "every plaintext returned while encrypted is a text the peer sent in this session (or marked resent / flagged unencrypted). "
                  "Non-trivial: the attack hit the next acceptable message of an encrypted receiver inside the authenticated part or was a forgery. Sweep: every offset x {^01,^80,:=00,:=FF,truncate}."),
         "assumptions": COMMON_ASSUME,
-        "exhaustive_checks": ["C02sweep"],
+        "exhaustive_checks": ["C02sweep", "C02resent"],
         "tests": [
             {"name": "TestProp_C02_Attack", "quick": {"shards": 8, "checks": 40, "timeout": 400}, "thorough": {"shards": 16, "checks": 500, "timeout": 3000}},
+            {"name": "TestProp_C02_Resent", "kind": "plain", "quick": {"shards": 8, "timeout": 600}, "thorough": {"shards": 16, "timeout": 3000}},
             {"name": "TestProp_C02_Sweep", "kind": "plain", "quick": {"shards": 8, "timeout": 400}, "thorough": {"shards": 16, "timeout": 3000}},
         ],
     },
@@ -55,8 +56,10 @@ PROPS = {
         "rule": ("ops: ping-pong rounds, sends, FIFO and out-of-order deliveries, queue duplication, 'replay' of any recorded data message of the peer (all fragments in order), End+re-AKE ('rekey'), SMP, extra key, clock ageing. "
                  "Oracle: per (message, receiver) at most one delivery has an effect (plaintext, SMP/security event, key callback, non-error reply); per token at most one delivery. "
                  "Non-trivial: a message that already had its effect was re-delivered after >=4 further completed deliveries at that receiver, or in a later session."),
+        "exhaustive_checks": ["C05refreplay"],
         "assumptions": COMMON_ASSUME + ["texts re-sent by the library's own resend feature (marked '[resent] ') are judged under C18, not here"],
         "tests": [
+            {"name": "TestProp_C05_RefReplay", "kind": "plain", "quick": {"shards": 4, "timeout": 600}, "thorough": {"shards": 4, "timeout": 3000}},
             {"name": "TestProp_C05_Replay", "quick": {"shards": 8, "checks": 40, "timeout": 400}, "thorough": {"shards": 16, "checks": 500, "timeout": 3000}},
         ],
     },
